@@ -191,14 +191,16 @@ func checkTruth(f *File, r result) string {
 		return fmt.Sprintf("complete file does not decode: %s %s", r.kind, r.msg)
 	}
 	s := r.snap
-	if s.ALen != f.NVerts || s.Prims != f.NPrims {
+	if f.AltNVerts > 0 && s.ALen == f.AltNVerts && s.Prims == f.AltNVerts {
+		// a file of several blocks read as all of its blocks
+	} else if s.ALen != f.NVerts || s.Prims != f.NPrims {
 		return fmt.Sprintf("complete file decodes to %d vertices / %d primitives, %d / %d were written", s.ALen, s.Prims, f.NVerts, f.NPrims)
 	}
 	if f.NVerts == 0 {
 		return ""
 	}
 	pos, ok := s.F3[modeling.PositionAttribute]
-	if !ok || len(pos) != f.NVerts {
+	if !ok || len(pos) != s.ALen {
 		return "complete file decodes without positions"
 	}
 	for i, p := range pos {
